@@ -2,20 +2,25 @@
 # Parts 1 (core reader) and 3 (selected hand-written helpers) + the totality search live here.
 # The lead appends part 2 (generated table layouts): props "C01/LayoutProps.v", the Layout coq_targets,
 # and a second bin — the lists below are plain lists for that purpose.
-PROPS = ["C01/Props.v"]
-COQ_TARGETS = ["C01/Core.vo", "C01/Tables.vo", "C01/Proofs.vo", "C01/Examples.vo"]
-BINS = ["c01"]
+PROPS = ["C01/Props.v", "C01/LayoutProps.v"]
+COQ_TARGETS = ["C01/Core.vo", "C01/Tables.vo", "C01/Proofs.vo", "C01/Examples.vo", "C01/LayoutProofs.vo", "C01/LayoutExamples.vo"]
+BINS = ["c01", "c01l"]
 
 SPEC = dict(
     id="C01",
     bin="c01",
     bins=BINS,
     coq_dir="C01",
+    coq_pre_cmd="python3 translators/layout_extract.py",
     props=PROPS,
     coq_targets=COQ_TARGETS,
     allowed_axioms=[],
     harness_timeout=3000,
-    level_text=("Unbounded Coq theorems (every byte list, every usize argument, usize = 2^64 explicit) about an executable model of "
+    level_text=("Part 2 (translator tie): translators/layout_extract.py regenerates, on every run, Coq terms for ALL 256 generated table "
+                "readers of read-fonts/generated (cursor walk, marker byte ranges, 1147 unwrapping getters) into coq/C01/LayoutGen.v; "
+                "the generic theorem getters_safe (wf_safe L -> read succeeds -> no getter panics, for every byte content and length) and "
+                "ranges_no_overflow are instantiated for every table by vm_compute (all_generated_layouts_safe, no table excluded). "
+                "Parts 1+3: Unbounded Coq theorems (every byte list, every usize argument, usize = 2^64 explicit) about an executable model of "
                 "the read-fonts core reader: FontData::{read_at, read_be_at, read_ref_at, read_array, slice, split_off, take_up_to}, "
                 "every Cursor operation incl. the IFT varint, offset resolution, TableDirectory/FontRef::new/table_data (with std's "
                 "binary_search_by), TTCHeader read, and the hand-written helpers postscript Index1/Index2 (read, get_offset, get), "
@@ -35,7 +40,8 @@ SPEC = dict(
                 "theorems but no public entry point, so it is not tied. Stack depth and wall-clock time are only observed (watchdog), "
                 "not proved. Known violation of the purity clause: Colr PaintId depends on the buffer address (reported as an oracle failure)."),
     technique="Coq proof over hand-written Gallina model + vm_compute correspondence with read-fonts + implementation-only totality/purity search",
-    modelled=["read-fonts/src/font_data.rs: FontData::{split_off, take_up_to, slice, read_at, read_be_at, read_ref_at, read_array, check_in_bounds}, "
+    modelled=["read-fonts/generated/generated_*.rs + font.rs: all 256 generated table readers (read bodies, *_byte_range functions, getters) via translators/layout_extract.py -> coq/C01/LayoutGen.v (DSL and interpreter in coq/C01/Layout.v)",
+              "read-fonts/src/font_data.rs: FontData::{split_off, take_up_to, slice, read_at, read_be_at, read_ref_at, read_array, check_in_bounds}, "
               "Cursor::{advance, advance_by, read, read_be, read_array, read_with_args, read_computed_array, read_u32_var, position, remaining_bytes, remaining, is_empty, finish}",
               "read-fonts/src/offset.rs: Offset::non_null, ResolveOffset::resolve, ResolveNullableOffset::resolve",
               "read-fonts/generated/font.rs: TableDirectory::read + getters, TTCHeader::read + getters; read-fonts/src/lib.rs: FontRef::{new, with_table_directory, table_data}, CollectionRef::{new, get}",
